@@ -122,6 +122,20 @@ func c16Call(env *core.Env, name string, n int, experimental bool, inTable bool,
 	}
 	if !accepted {
 		env.Cover("rejected")
+		// a name that is not in the table is not a function, whatever its arguments look like (type names included)
+		if !inTable && n == 1 {
+			for _, alt := range []string{"Patient.%s(Patient)", "1.%s(Integer)", "Patient.%s(FHIR.Patient)", "'a'.%s(System.String)", "Patient.name.%s(HumanName)", "%s(Patient)", "Patient.%s($this)", "Patient.%s(name)"} {
+				asrc := fmt.Sprintf(alt, name)
+				aex, acr := fx.Compile(env, asrc, co...)
+				env.Cover("rejected-with-type-argument")
+				if acr.IsPanic() {
+					env.Violatef(fx.PanicSig("C16", acr), "Compile(`%s`) => %s", asrc, acr.Short())
+				} else if aex != nil {
+					env.Violatef(fmt.Sprintf("C16/compile-accepted/%s/1/not-in-table", name), "`%s` [%s]: %q is not in the function table but Compile accepts the call", asrc, cfg, name)
+					break
+				}
+			}
+		}
 		// a call Compile rejects is rejected wherever it stands: as either operand of every binary operator, in an
 		// indexer, as an argument, in a criterion, in parentheses
 		if !strings.Contains(src, "$") {
@@ -227,7 +241,7 @@ func runC16(env *core.Env) {
 	for _, s := range specList {
 		names[s.Name] = true
 	}
-	for _, extra := range []string{"convertToDateTime", "noSuchFunction", "Where", "toquantity", "aggregate", "is", "as"} {
+	for _, extra := range []string{"convertToDateTime", "noSuchFunction", "Where", "toquantity", "aggregate", "is", "as", "conformsTo", "memberOf", "subsumes", "subsumedBy", "htmlChecks", "resolve", "elementDefinition", "slice", "checkModifiers", "hasValue", "getValue", "encode", "decode", "escape", "unescape", "trim", "split", "lowBoundary", "highBoundary", "precision", "type", "sum", "min", "max", "avg", "defineVariable", "sort", "coalesce", "Is", "As", "ofType", "IS"} {
 		names[extra] = true
 	}
 	var sorted []string
